@@ -25,6 +25,7 @@ type Query implements Node {
   many(fs: [Filter!]): Int
   nums(xs: [Int!] = [1, 2], ys: [[Int!]!]! = [[1]], z: Float = 2): Int
   trio: Trio
+  big(b: Big = B2, bs: [Big!]): Big
 }
 type Mutation { set(in: Filter!): Pet }
 type Subscription { tick(every: Int): Int tock: Int pet: Pet }
@@ -32,7 +33,12 @@ interface Node { id: ID! }
 interface Named implements Node { id: ID! name(short: Boolean): String }
 type Pet implements Named & Node { id: ID! name(short: Boolean): String kind: Kind owner: Person nick: String tags: [String!] }
 type Person implements Node & Named { id: ID! name(short: Boolean): String pets(first: Int = 1): [Pet] age: Int nick: Int tags: [String] friend: Person }
+# robots
+#
+# are things, not pets
 type Robot { id: ID! model: String }
+# a long enumeration
+enum Big { B1 B2 B3 B4 B5 B6 B7 B8 B9 B10 }
 union Result = Pet | Person
 union Thing = Pet | Robot
 union Trio = Pet | Person | Robot
@@ -221,11 +227,15 @@ var litMenu = []string{
 	`1`, `2147483647`, `2147483648`, `-2147483649`, `9223372036854775808`, `1.5`, `1e400`, `"s"`, `"""b"""`, `true`, `null`, `DOG`, `BAD`, `$v`, `[1]`, `[1, "s"]`, `[[1]]`, `[null]`, `[DOG]`, `[DOG, BAD]`, `[[DOG]]`,
 	`{}`, `{req: true}`, `{req: true, name: 1}`, `{req: true, zz: 1}`, `{req: true, req: false}`, `{name: "a"}`, `{req: null}`, `{req: true, sub: {req: true}}`, `{req: true, sub: {}}`,
 	`{req: true, kinds: DOG}`, `{req: true, kinds: [CAT, BAD]}`, `{req: true, min: null}`, `{a: 1}`, `{a: 1, b: "x"}`, `{a: null}`, `{b: $v}`, `{a: $w}`, `[]`, `[[]]`, `"1"`, `-0`, `"DOG"`,
+	// variables and objects inside list literals (also where a custom scalar takes any literal)
+	`[$v]`, `[$nope]`, `[{a: 1, a: 2}]`, `{k: [$nope]}`, `[[$v, {x: $v}]]`,
 }
 
 var dirMenu = []string{
 	``, `@skip(if: true)`, `@skip`, `@nope`, `@tag(name: "a")`, `@tag(name: "a") @tag(name: "b")`, `@once @once`, `@once`, `@deprecated`, `@include(if: $c)`, `@skip(if: 1)`,
 	`@skip(if: true, unless: false)`, `@tag(name: null)`, `@tag`, `@skip(if: true) @skip(if: false)`, `@oneOf`, `@specifiedBy(url: "u")`, `@tag(name: "a", name: "b")`, `@once(v: $c)`, `@include(if: true) @skip(if: false)`,
+	// a repeatable directive before / between the occurrences of one that is not
+	`@tag(name: "a") @skip(if: true) @skip(if: false)`, `@once @tag(name: "a") @once`, `@tag(name: "a") @once @tag(name: "b")`, `@skip(if: true) @tag(name: "a") @include(if: true) @skip(if: true)`,
 }
 
 var ValidProfiles = []Profile{
